@@ -132,6 +132,7 @@ func (b *batch) run(m *Monitor, o ParentOpts, work string, k int, raceLog string
 			cmd.Env = append(cmd.Env, "GORACE=halt_on_error=0 log_path="+raceLog+fmt.Sprintf(".b%03d", k))
 		}
 		err := cmd.Run()
+		timedOut := ctx.Err() != nil
 		cancel()
 		logf.Close()
 		code := 0
@@ -170,7 +171,7 @@ func (b *batch) run(m *Monitor, o ParentOpts, work string, k int, raceLog string
 			}
 		}
 		lb, _ := os.ReadFile(base + ".log")
-		if ctx.Err() != nil {
+		if timedOut {
 			b.inconcl = append(b.inconcl, fmt.Sprintf("batch %d: child exceeded the 3 h safety limit at case %d", k, crashed))
 		} else {
 			b.crashes = append(b.crashes, crashFromLog(m.ID, string(lb), crashed))
